@@ -8,6 +8,7 @@ from checks import callcommon, ctxcommon
 from framework import Case
 
 PROP = "C08"
+GENERATED = ['ErrorTable', 'OpSemantics', 'DtypeTables']  # generated files this check's tie depends on
 LEAN_MODULES = ["Properties.C08", "Properties.C08b"]
 RULE = (
     "corpus; seeded contexts built conforming and then given exactly one perturbation (one axis resized, an axis added or dropped, dtype "
